@@ -128,7 +128,14 @@ impl PV {
         )
     }
     pub fn variant(&self) -> String {
-        let s = format!("{:?}", self);
+        // cheap for large byte payloads: format an emptied copy
+        let small = match self {
+            PV::Block(_) => PV::Block(vec![]),
+            PV::Exprloc(_) => PV::Exprloc(vec![]),
+            PV::String(_) => PV::String(vec![]),
+            other => other.clone(),
+        };
+        let s = format!("{:?}", small);
         s.split('(').next().unwrap_or("").to_string()
     }
 }
